@@ -13,9 +13,20 @@
 (* request per argument position, each routed to the owner of its key,     *)
 (* one FIFO per node, the parent is answered when the last child is, the   *)
 (* reply is assembled by child position.                                   *)
+(* A per-key command may FAIL: the node answers an error for that key      *)
+(* (-OOM, -READONLY, -MISCONF ..., or the proxy's own error when it cannot *)
+(* reach the node); the key is left as it is. The combination then is: for *)
+(* MSET and the count commands an error reply whenever at least one per-   *)
+(* key command failed (+OK / the sum only if all succeeded); for MGET the  *)
+(* error in the failing element's position, or an error for the whole      *)
+(* command (Allowed). The other per-key commands are executed all the same *)
+(* (the property defines the commands per key, not as one transaction).    *)
 (* Broken variants (must violate EqualsReference / StoreIsReference):      *)
 (*   DedupKeys         - Split sends a key it has already seen only once   *)
 (*   AssembleByArrival - the reply is assembled in completion order        *)
+(*   MsetIgnoresChildErrors - MSET answers OK when its last child is       *)
+(*                       answered, whatever the children were answered     *)
+(*                       (the code before the repair of onChildDone)       *)
 (*   FoldUnsynchronised - the counts are added to a running sum as the     *)
 (*                       children complete; children are completed by the  *)
 (*                       readers of DIFFERENT backend connections, the     *)
@@ -27,11 +38,16 @@ CONSTANTS Nodes, Keys,
           Ops,          \* subset of {"mcount", "mdel", "mread", "mwrite"}: EXISTS/TOUCH, DEL/UNLINK, MGET, MSET
           MaxCmds,      \* commands of the (sequential) client
           MaxLen,       \* keys per command
-          DedupKeys, AssembleByArrival, FoldUnsynchronised
+          DedupKeys, AssembleByArrival, FoldUnsynchronised,
+          FailKeys,     \* keys whose per-key commands may be answered with an error (environment; any subset fails in a run)
+          MsetIgnoresChildErrors
+
+ASSUME FailKeys \subseteq Keys /\ (FoldUnsynchronised => FailKeys = {})
 
 Absent == 0
 OKReply == 1000
 Preset == 900         \* value of a key that exists at start
+ErrV == 2000          \* an error reply
 
 VARIABLES
   owner,    \* owner[k]: node that owns the slot of key k (any layout; it never changes)
@@ -41,39 +57,44 @@ VARIABLES
   q,        \* q[n]: FIFO of <<command index, kid index>>
   arrival,  \* arrival[c]: kid indexes of command c in completion order
   total,      \* FoldUnsynchronised: total[c] running sum of command c
+  failing,  \* keys whose node answers an error (fixed for the run)
   hand      \* FoldUnsynchronised: hand[n] = <<c, i, sum read>> while the reader of node n's connection is between
             \* reading the running sum and writing it back, <<>> otherwise
 
-vars == <<owner, store, ref, cmds, q, arrival, total, hand>>
+vars == <<owner, store, ref, cmds, q, arrival, total, hand, failing>>
 SumOps == {"mcount", "mdel"}
 
 KeySeqs == UNION {[1..l -> Keys] : l \in 1..MaxLen}
 
 \* ---- the definition: per-key commands, combined in argument order, on one store
 \* one per-key command: <<reply, new value of the key>>
-PerKey(op, cur, val) ==
+PerKey(op, cur, val, fails) ==
+  IF fails THEN <<ErrV, cur>> ELSE
   CASE op = "mcount" -> <<IF cur = Absent THEN 0 ELSE 1, cur>>
     [] op = "mdel"   -> <<IF cur = Absent THEN 0 ELSE 1, Absent>>
     [] op = "mread"  -> <<cur, cur>>
     [] op = "mwrite" -> <<OKReply, val>>
 
-RECURSIVE RefFold(_, _, _, _, _, _)
-\* replies of positions i..Len(ks) and the final store
-RefFold(op, ks, vals, st, i, acc) ==
+RECURSIVE RefFold(_, _, _, _, _, _, _)
+\* replies of positions i..Len(ks) and the final store; F: the keys whose per-key command fails
+RefFold(op, ks, vals, st, F, i, acc) ==
   IF i > Len(ks) THEN <<acc, st>>
-  ELSE LET pk == PerKey(op, st[ks[i]], vals[i])
-       IN RefFold(op, ks, vals, [st EXCEPT ![ks[i]] = pk[2]], i + 1, Append(acc, pk[1]))
+  ELSE LET pk == PerKey(op, st[ks[i]], vals[i], ks[i] \in F)
+       IN RefFold(op, ks, vals, [st EXCEPT ![ks[i]] = pk[2]], F, i + 1, Append(acc, pk[1]))
 
 RECURSIVE SumSeq(_)
 SumSeq(s) == IF s = <<>> THEN 0 ELSE Head(s) + SumSeq(Tail(s))
 
+HasErr(replies) == \E i \in 1..Len(replies) : replies[i] = ErrV
 Combine(op, replies) ==
-  CASE op \in {"mcount", "mdel"} -> <<SumSeq(replies)>>
-    [] op = "mread" -> replies
-    [] op = "mwrite" -> <<OKReply>>
+  CASE op \in {"mcount", "mdel"} -> IF HasErr(replies) THEN <<ErrV>> ELSE <<SumSeq(replies)>>
+    [] op = "mread" -> replies             \* an error stands in the position of its key
+    [] op = "mwrite" -> IF HasErr(replies) THEN <<ErrV>> ELSE <<OKReply>>
 
-\* <<reply, store afterwards>> of a single server
-RefMulti(op, ks, vals, st) == LET f == RefFold(op, ks, vals, st, 1, <<>>) IN <<Combine(op, f[1]), f[2]>>
+\* <<reply, store afterwards>> of a single server on which the per-key commands of the keys in F fail
+RefMulti(op, ks, vals, st, F) == LET f == RefFold(op, ks, vals, st, F, 1, <<>>) IN <<Combine(op, f[1]), f[2]>>
+\* what the property allows as the reply, given the canonical combination exp
+Allowed(op, exp, reply) == reply = exp \/ (op = "mread" /\ HasErr(exp) /\ reply = <<ErrV>>)
 
 \* ---- the proxy
 FirstOcc(ks, i) == \A j \in 1..(i - 1) : ks[j] # ks[i]
@@ -87,6 +108,7 @@ Init ==
   /\ store = [n \in Nodes |-> [k \in Keys |-> IF owner[k] = n THEN ref[k] ELSE Absent]]
   /\ cmds = <<>> /\ q = [n \in Nodes |-> <<>>] /\ arrival = <<>>
   /\ total = <<>> /\ hand = [n \in Nodes |-> <<>>]
+  /\ failing \in SUBSET FailKeys
 
 AllAnswered == \A c \in 1..Len(cmds) : cmds[c].st = "done"
 
@@ -102,13 +124,13 @@ Issue(op, ks) ==
          vals == [i \in 1..Len(ks) |-> 10 * c + i]
          pos == SetToSortedSeq(Positions(ks))
          kids == [j \in 1..Len(pos) |-> [pos |-> pos[j], k |-> ks[pos[j]], val |-> vals[pos[j]], st |-> "sent", reply |-> 0]]
-         rm == RefMulti(op, ks, vals, ref)
+         rm == RefMulti(op, ks, vals, ref, failing)
      IN /\ cmds' = Append(cmds, [op |-> op, ks |-> ks, vals |-> vals, kids |-> kids, exp |-> rm[1], st |-> "open", reply |-> <<>>])
         /\ ref' = rm[2]
         /\ q' = EnqAll(q, c, kids, 1)
         /\ arrival' = Append(arrival, <<>>)
         /\ total' = Append(total, 0)
-  /\ UNCHANGED <<owner, store, hand>>
+  /\ UNCHANGED <<owner, store, hand, failing>>
 
 (* node n executes the per-key command at the head of its connection and answers; the reader of that connection *)
 (* completes the child (onChildDone)                                                                            *)
@@ -117,14 +139,14 @@ NodeExec(n) ==
   /\ LET c == Head(q[n])[1]
          i == Head(q[n])[2]
          kid == cmds[c].kids[i]
-         pk == PerKey(cmds[c].op, store[n][kid.k], kid.val)
+         pk == PerKey(cmds[c].op, store[n][kid.k], kid.val, kid.k \in failing)
          fold == FoldUnsynchronised /\ cmds[c].op \in SumOps
      IN /\ store' = [store EXCEPT ![n][kid.k] = pk[2]]
         /\ cmds' = [cmds EXCEPT ![c].kids[i].st = IF fold THEN "folding" ELSE "done", ![c].kids[i].reply = pk[1]]
         /\ arrival' = [arrival EXCEPT ![c] = Append(@, i)]
         /\ hand' = IF fold THEN [hand EXCEPT ![n] = <<c, i, total[c]>>] ELSE hand
   /\ q' = [q EXCEPT ![n] = Tail(@)]
-  /\ UNCHANGED <<owner, ref, total>>
+  /\ UNCHANGED <<owner, ref, total, failing>>
 
 (* broken variant: the second half of "total += count" *)
 FoldWrite(n) ==
@@ -134,7 +156,7 @@ FoldWrite(n) ==
      IN /\ total' = [total EXCEPT ![c] = hand[n][3] + cmds[c].kids[i].reply]
         /\ cmds' = [cmds EXCEPT ![c].kids[i].st = "done"]
   /\ hand' = [hand EXCEPT ![n] = <<>>]
-  /\ UNCHANGED <<owner, store, ref, q, arrival>>
+  /\ UNCHANGED <<owner, store, ref, q, arrival, failing>>
 
 (* the last child has been answered: the parent's reply is assembled *)
 Assemble(c) ==
@@ -143,15 +165,18 @@ Assemble(c) ==
   /\ LET order == IF AssembleByArrival THEN arrival[c] ELSE [i \in 1..Len(cmds[c].kids) |-> i]
          replies == [j \in 1..Len(order) |-> cmds[c].kids[order[j]].reply]
      IN cmds' = [cmds EXCEPT ![c].st = "done",
-                             ![c].reply = IF FoldUnsynchronised /\ cmds[c].op \in SumOps THEN <<total[c]>> ELSE Combine(cmds[c].op, replies)]
-  /\ UNCHANGED <<owner, store, ref, q, arrival, total, hand>>
+                             ![c].reply = IF FoldUnsynchronised /\ cmds[c].op \in SumOps THEN <<total[c]>>
+                                          ELSE IF MsetIgnoresChildErrors /\ cmds[c].op = "mwrite" THEN <<OKReply>>
+                                          ELSE Combine(cmds[c].op, replies)]
+  /\ UNCHANGED <<owner, store, ref, q, arrival, total, hand, failing>>
 
 Next == (Len(cmds) < MaxCmds /\ AllAnswered /\ \E op \in Ops, ks \in KeySeqs : Issue(op, ks)) \/ (\E n \in Nodes : NodeExec(n) \/ FoldWrite(n)) \/ (\E c \in 1..Len(cmds) : Assemble(c))
 Spec == Init /\ [][Next]_vars /\ WF_vars(Next)
 
 -----------------------------------------------------------------------------
 \* the reply of every multi-key command is the combination, in argument order, of the per-key replies of a single server
-EqualsReference == \A c \in 1..Len(cmds) : cmds[c].st = "done" => cmds[c].reply = cmds[c].exp
+\* (with failing keys: one of the replies the property allows)
+EqualsReference == \A c \in 1..Len(cmds) : cmds[c].st = "done" => Allowed(cmds[c].op, cmds[c].exp, cmds[c].reply)
 \* once everything is answered the cluster holds exactly what the single server holds, each key at its owner
 StoreIsReference == AllAnswered => \A k \in Keys : \A n \in Nodes : store[n][k] = IF owner[k] = n THEN ref[k] ELSE Absent
 \* each child is delivered to the owner of its key (no redirection on a stable cluster)
